@@ -269,6 +269,43 @@ class HSideNM(HookMix, NodeMixin):
                 raise AttributeError(key) from None
 
 
+class HArmNM(HookMix, NodeMixin):
+    """A class whose pre-hooks ARM the matching post-hook on the instance (a one-shot callback carrying a snapshot taken
+    before the change): the post-hook that is on the node when the step has been made is the one that runs. The class-level
+    post-hooks record a different kind, so a stale lookup shows in the log."""
+
+    separator = "/"
+
+    def __init__(self, name):
+        self.name = name
+
+    def _pre_attach(self, parent):
+        out = _rec().hook("pre_attach", self, parent)
+
+        def armed(parent_):
+            del self._post_attach
+            return _rec().hook("post_attach", self, parent_)
+
+        self._post_attach = armed
+        return out
+
+    def _pre_detach(self, parent):
+        out = _rec().hook("pre_detach", self, parent)
+
+        def armed(parent_):
+            del self._post_detach
+            return _rec().hook("post_detach", self, parent_)
+
+        self._post_detach = armed
+        return out
+
+    def _post_attach(self, parent):
+        return _rec().hook("post_attach(the hook of the class although the pre-hook armed one on the instance)", self, parent)
+
+    def _post_detach(self, parent):
+        return _rec().hook("post_detach(the hook of the class although the pre-hook armed one on the instance)", self, parent)
+
+
 class HLM(HookMix, LightNodeMixin):
     __slots__ = ("name",)
     separator = "/"
@@ -413,6 +450,7 @@ CLASSES = {
     "DictLM": (lambda l: _nodes.DictLM(_name(l)), "LM", False),
     "LateSuperNM": (lambda l: _nodes.LateSuperNM(_name(l)), "NM", False),
     "LockNM": (lambda l: LockNM(_name(l)), "NM", False),
+    "HArmNM": (lambda l: HArmNM(_name(l)), "NM", True),
     "HSlotStoreNM": (lambda l: HSlotStoreNM(_name(l)), "NM", True),
     "HSideNM": (lambda l: HSideNM(_name(l)), "NM", True),
     "HRevNM": (lambda l: HRevNM(_name(l)), "NM", True),
